@@ -30,7 +30,7 @@ def _val(rng, a, w):
 def gen_rv(rng, nops):
     if rng.random() < 0.03:
         nops *= 8  # more than 512 accesses on one object
-    anchors = [0x4000, 0x4000, 0x4010, 0x1_0000_0000, 0x1_0000_0000, 0, 0x8000_0000, rng.randrange(0x4000, 1 << 32)]
+    anchors = [0x4000, 0x4000, 0x4010, 0x1_0000_0000, 0x1_0000_0000, 0, 0x8000_0000, rng.randrange(0x4000, 1 << 32), rng.choice([0x1000, 0x2000, 0x1400, 0x3FF0])]
     ops = []
     for _ in range(nops):
         a = rng.choice(anchors) + rng.randrange(-9, 10)
@@ -130,6 +130,15 @@ def run_case(prop, case, res):
             m = Memory(AddressingType.BYTE, case["bits"], True)
             flat = FlatMem(lo=0, hi=1 << case["bits"], modulo=1 << case["bits"])
             res.count("histories_on_full_range_wrapping_memory")
+        elif len(case["ops"]) % 4 == 1:
+            # the data memory of a state that was handed its own, smaller or shifted instruction memory: the first data
+            # address is the documented 2^14 whatever the instruction memory looks like
+            from architecture_simulator.uarch.memory.instruction_memory import InstructionMemory
+
+            lo_, hi_ = [(0, 1 << 12), (0x100, 0x2000), (0, 1 << 13), (0x400, 0x1400)][len(case["ops"]) // 4 % 4]
+            m = RiscvArchitecturalState(instruction_memory=InstructionMemory(address_range=range(lo_, hi_))).memory
+            flat = FlatMem()
+            res.count("histories_on_memory_of_state_with_custom_instruction_memory")
         else:
             m = RiscvArchitecturalState().memory
             flat = FlatMem()
